@@ -208,7 +208,7 @@ func runC16(r resIface, c *c16case, rng *prng.R, scratch string) {
 			payload := rdbgen.DumpPayload(t, w.Bytes(), 9)
 			k.Big = uint64(len(payload)) >= c.Threshold
 			if k.TTL == "long" {
-				k.expAt = now + int64(rng.Range(100000000, 1000000000))
+				k.expAt = now + int64(rng.Pick(rng.Range(100000000, 1000000000), rng.Range(100000000, 1000000000), 3000000000, 5000000000, 700000000000)) // also beyond 2^31 and 2^32 ms
 			}
 			if k.Vanish != "before-dump" {
 				e := s.srv.Put(k.DB, k.Key, miniredis.CloneValue(k.val), k.expAt)
